@@ -25,15 +25,15 @@ def afterStart (start : Bytes) (incl : Bool) (n : Bytes) : Bool :=
   ltB start n || (incl && decide (n = start))
 
 /-- does a child name match the request? (prefix and pattern are documented as mutually exclusive) -/
-def matches (r : Req) (n : Bytes) : Bool :=
+def matchesReq (r : Req) (n : Bytes) : Bool :=
   isPrefix r.pfx n && (decide (r.pattern = []) || glob r.pattern n) && !(decide (r.excl ≠ []) && glob r.excl n)
 
 /-- THE SPEC: what a listing returns, given the sorted live child names -/
 def specList (sorted : List Bytes) (r : Req) : List Bytes :=
-  ((sorted.filter (afterStart r.start r.incl)).filter (matches r)).take r.limit
+  ((sorted.filter (afterStart r.start r.incl)).filter (matchesReq r)).take r.limit
 
 /-- everything a complete pagination must enumerate -/
-def specAll (sorted : List Bytes) (r : Req) : List Bytes := sorted.filter (matches r)
+def specAll (sorted : List Bytes) (r : Req) : List Bytes := sorted.filter (matchesReq r)
 
 /-- requests inside the property's domain: prefix and pattern not both given -/
 def inDomain (r : Req) : Bool := decide (r.pfx = []) || decide (r.pattern = [])
